@@ -1,5 +1,6 @@
 import Ebv.Driver.Io
 import Ebv.Model.SdoSystem
+import Ebv.Model.SdoConfig
 open Ebv Ebv.Io Ebv.Sdo Ebv.SdoServer Ebv.SdoSystem Lean
 
 def showEv : Ev → String
@@ -28,7 +29,9 @@ def getParams (j : Json) : Option Params := do
   let sub := match field j "sub" with
     | some (.num n) => some n.mantissa.toNat
     | _ => none
-  pure ⟨← fNat j "out", ← fNat j "in", ← fNat j "index", sub⟩
+  match fBytes j "sm" with
+  | some sm => Ebv.SdoConfig.configure sm (← fNat j "index") sub     -- sizes as parse_sync_managers finds them in the table
+  | none => pure ⟨← fNat j "out", ← fNat j "in", ← fNat j "index", sub⟩
 
 def getKind (j : Json) : Option Kind := do
   match ← fStr j "kind" with
